@@ -189,7 +189,7 @@ func c01Run(c *core.Ctx) {
 	// (ii-c) texts the tree generator cannot spell (it parenthesises number objects): member access directly
 	// on number literals of every shape
 	for _, n := range []string{"0", "1", "7", "10", "255", "0x1f", "0b11", "0o17", "1e3", "1.5", "0.5", "00"} {
-		for _, t := range []string{"print(%s .toFixed(1))", "print(- %s .toFixed(2), a)", "print(a == %s .valueOf())", "print(%s\n.toString())", "let v = %s .constructor; print(v === Number)", "print(%s .toFixed(1) + %s .toFixed(1))"} {
+		for _, t := range []string{"print(%s .toFixed(1))", "print(- %s .toFixed(2), a)", "print(a == %s .valueOf())", "print(%s\n.toString())", "let v = %s .constructor; print(v == Number)", "print(%s .toFixed(1) + %s .toFixed(1))"} {
 			if !c.Next() || c.Tick() {
 				continue
 			}
